@@ -74,10 +74,21 @@ def message_pool(remote_as, r=None):
         ('update_withdraw', frame(2, update_body(nlri=b'', attrs=b'', withdraw=b'\x18\x0a\x00\x00'))),
         ('update_aspath4', frame(2, update_body(attrs=bytes.fromhex('40010100' '4002060201' '0000fde9' '4003040a000001')))),
         ('update_aspath2', frame(2, update_body(attrs=bytes.fromhex('40010100' '4002040201' 'fde9' '4003040a000001')))),
+        # a 2-octet-AS UPDATE as an OLD speaker's neighbour relays it: AS4_PATH (optional transitive, always 4-octet numbers)
+        # in front of the AS_PATH with 2-octet numbers - the width of AS_PATH is the session's, whatever came before it
+        ('update_as4path_first', frame(2, update_body(attrs=bytes.fromhex('40010100' 'c011060201' '0000fde9' '4002040201' 'fde9' '4003040a000001')))),
         ('update_eor', frame(2, update_body(nlri=b'', attrs=b''))),
         # MP_REACH_NLRI / MP_UNREACH_NLRI for an address family the agent has no name for (AFI 1, SAFI 132)
         ('update_mp_unknown_family', frame(2, update_body(nlri=b'', attrs=bytes.fromhex('40010100' '400200' '800e0b' '000184' '04' '0a000001' '00' '0102')))),
         ('update_mpunreach_unknown_family', frame(2, update_body(nlri=b'', attrs=bytes.fromhex('800f05' '000184' '0102')))),
+        # UPDATEs of the multiprotocol families the agent does keep books on (per-family version counters): withdrawals of
+        # routes never announced, announcements, withdrawals - every one of them is an UPDATE that arrived
+        ('update_vpnv4_withdraw_unknown', bytes.fromhex('ffffffffffffffffffffffffffffffff002c0200000015900f00110001806880000000000064000000640a09')),
+        ('update_vpnv4_announce', bytes.fromhex('ffffffffffffffffffffffffffffffff004802000000314001010040020040050400000064900e001f0001800c00000000000000000a000009006800019100000064000000640a09')),
+        ('update_flowspec_withdraw_unknown', bytes.fromhex('ffffffffffffffffffffffffffffffff0023020000000c900f00080001850401100a08')),
+        ('update_flowspec_announce', bytes.fromhex('ffffffffffffffffffffffffffffffff0033020000001c4001010040020040050400000064900e000a00018500000401100a08')),
+        ('update_ipv6_withdraw_unknown', bytes.fromhex('ffffffffffffffffffffffffffffffff0025020000000e900f000a0002013020010db80001')),
+        ('update_ipv6_announce', bytes.fromhex('ffffffffffffffffffffffffffffffff0045020000002e4001010040020040050400000064900e001c0002011020010db8000000000000000000000001003020010db80001')),
         # the largest message the RFC allows (4096 octets): a well-formed UPDATE padded by an unknown optional transitive
         # attribute with extended length, and a malformed one of the same size
         ('update_max4096', frame(2, update_body(nlri=b'', attrs=bytes.fromhex('40010100' '400200' '4003040a000001')
